@@ -1,7 +1,7 @@
 (* C14, history level: legal states after any history; the 30 s inactivity deadline fires at the next tick in every reachable state.
    Statements only: each theorem restates the full type of a lemma proved in coq/proofs and is closed by
    `exact`; Print Assumptions beneath.  Regenerate with bin/genprops.py after a lemma changes. *)
-From LLTD Require Import Automata Sys AutomataHistory.
+From LLTD Require Import Automata Sys AutomataHistory SpecExec ExpectSound.
 
 Theorem C14_every_reachable_state_legal :
   forall (af sf : N -> bool) (junk : N) (ops : list op) (y : sys) (w : world),
@@ -47,3 +47,26 @@ Theorem C14_invariant_of_every_history :
   SysSafe.run_ops af sf junk y ops w = Ok y' w' /\ HInv y' w' /\ (w_now w <= w_now w')%N.
 Proof. exact history_inv. Qed.
 Print Assumptions C14_invariant_of_every_history.
+
+Theorem C14_runtime_expectation_sound :
+  forall (s : N) (input : Z) (now_s last : N),
+  (s < 3)%N ->
+  (last <= now_s)%N ->
+  (now_s < W64)%N ->
+  let l := mapping_expect s input (now_s - last) (timeout_of mapping_timeouts s) in
+  let a' := switch_mapping {| a_cur := s; a_last := last |} now_s input in
+  In (a_cur a') l /\ l <> [] /\ a_last a' = now_s.
+Proof. exact mapping_expect_sound_all. Qed.
+Print Assumptions C14_runtime_expectation_sound.
+
+Theorem C14_timed_out_means_idle :
+  forall (s : N) (input : Z) (now_s last : N),
+  (s < 3)%N ->
+  (last <= now_s)%N ->
+  (now_s < W64)%N ->
+  let tmo := timeout_of mapping_timeouts s in
+  tmo <> 0%Z ->
+  (Z.to_N tmo < now_s - last)%N ->
+  a_cur (switch_mapping {| a_cur := s; a_last := last |} now_s input) = 0%N.
+Proof. exact mapping_timed_out_quiescent. Qed.
+Print Assumptions C14_timed_out_means_idle.
